@@ -296,28 +296,31 @@ std::string handle(const std::string& op, Args& a)
 	if(op == "c10.interp.ctor")
 	{
 		auto xs = a.dbls(), ys = a.dbls();
+		double xd = a.dbl(), fd = a.dbl();
 		a.end();
 		return run_forked([&](Out& o) {
-			Interpolation I(xs, ys);
+			Interpolation I(xs, ys, xd, fd);
 			o << I.domain[0] << I.domain[1];
 		});
 	}
 	if(op == "c10.interp.table")
 	{
-		auto t = table(a);
+		auto t	  = table(a);
+		double xd = a.dbl(), fd = a.dbl();
 		a.end();
 		return run_forked([&](Out& o) {
-			Interpolation I(t);
+			Interpolation I(t, xd, fd);
 			o << I.domain[0] << I.domain[1];
 		});
 	}
 	if(op == "c10.interp.locate" || op == "c10.interp.eval")
 	{
-		auto xs	 = a.dbls();
-		double x = a.dbl();
+		auto xs	  = a.dbls();
+		double xd = a.dbl(), fd = a.dbl();
+		double x  = a.dbl();
 		a.end();
 		return run_forked([&](Out& o) {
-			Interpolation I(xs, ramp(xs.size()));
+			Interpolation I(xs, ramp(xs.size()), xd, fd);
 			if(op == "c10.interp.locate")
 				o << I.Locate(x);
 			else
@@ -327,20 +330,23 @@ std::string handle(const std::string& op, Args& a)
 	if(op == "c10.interp.deriv")
 	{
 		auto xs	   = a.dbls();
+		double xd = a.dbl(), fd = a.dbl();
 		double x   = a.dbl();
 		unsigned k = U(a);
 		a.end();
 		return run_forked([&](Out& o) {
-			Interpolation I(xs, ramp(xs.size()));
+			Interpolation I(xs, ramp(xs.size()), xd, fd);
 			o << I.Derivative(x, k);
 		});
 	}
 	if(op == "c10.interp.hist")	  // a history of Interpolate calls on ONE object
 	{
-		auto xs = a.dbls(), vs = a.dbls();
+		auto xs	  = a.dbls();
+		double xd = a.dbl(), fd = a.dbl();
+		auto vs	  = a.dbls();
 		a.end();
 		return run_forked([&](Out& o) {
-			Interpolation I(xs, ramp(xs.size()));
+			Interpolation I(xs, ramp(xs.size()), xd, fd);
 			for(double v : vs)
 				o << I.Interpolate(v);
 		});
@@ -348,10 +354,11 @@ std::string handle(const std::string& op, Args& a)
 	if(op == "c10.interp.integ" || op == "c10.interp.lmin" || op == "c10.interp.lmax")
 	{
 		auto xs	  = a.dbls();
+		double xd = a.dbl(), fd = a.dbl();
 		double x1 = a.dbl(), x2 = a.dbl();
 		a.end();
 		return run_forked([&](Out& o) {
-			Interpolation I(xs, ramp(xs.size()));
+			Interpolation I(xs, ramp(xs.size()), xd, fd);
 			if(op == "c10.interp.integ")
 				o << I.Integrate(x1, x2);
 			else if(op == "c10.interp.lmin")
@@ -382,6 +389,7 @@ std::string handle(const std::string& op, Args& a)
 	if(op == "c10.interp2.eval")
 	{
 		auto xs = a.dbls(), ys = a.dbls();
+		double xd = a.dbl(), yd = a.dbl();
 		double x = a.dbl(), y = a.dbl();
 		a.end();
 		return run_forked([&](Out& o) {
@@ -389,7 +397,7 @@ std::string handle(const std::string& op, Args& a)
 			for(size_t i = 0; i < xs.size(); i++)
 				for(size_t j = 0; j < ys.size(); j++)
 					f[i][j] = 1.0 + i - 0.5 * j;
-			Interpolation_2D I(xs, ys, f);
+			Interpolation_2D I(xs, ys, f, xd, yd);
 			o << I.Interpolate(x, y) << I(x, y);
 		});
 	}
@@ -440,6 +448,22 @@ std::string handle(const std::string& op, Args& a)
 			}
 		});
 	}
+	if(op == "c10.integmc.hist")   // a history of Integrate_MC calls in ONE process (Vegas keeps static grids)
+	{
+		size_t k = a.u64();
+		std::vector<std::string> ms;
+		for(size_t i = 0; i < k; i++)
+			ms.push_back(method(a));
+		a.end();
+		return run_forked([&](Out& o) {
+			std::function<double(std::vector<double>&, const double)> f = [](std::vector<double>& x, const double w) { return 1.0 + 0.5 * x[0] * x[1]; };
+			for(auto& m : ms)
+			{
+				std::vector<double> region = {0.0, 0.0, 1.0, 1.0};
+				o << Integrate_MC(f, region, 1000, m);
+			}
+		});
+	}
 	if(op == "c10.gl")
 	{
 		unsigned n = U(a), m = U(a);
@@ -456,6 +480,29 @@ std::string handle(const std::string& op, Args& a)
 		unsigned n = U(a);
 		a.end();
 		return run_forked([&](Out& o) { o << Factorial(n); });
+	}
+	if(op == "c10.factorial.hist")	 // a history of Factorial / Binomial_Coefficient calls in ONE process (static memo table)
+	{
+		size_t k = a.u64();
+		std::vector<std::string> items;
+		for(size_t i = 0; i < k; i++)
+			items.push_back(a.tok());
+		a.end();
+		for(auto& it : items)
+			if(it.size() < 2 || (it[0] != 'F' && it[0] != 'B'))
+				throw BadArgs("history item " + it);
+		return run_forked([&](Out& o) {
+			for(auto& it : items)
+			{
+				if(it[0] == 'F')
+					o << Factorial((unsigned) strtoull(it.c_str() + 1, nullptr, 10));
+				else
+				{
+					size_t c = it.find(':');
+					o << Binomial_Coefficient(atoi(it.substr(1, c - 1).c_str()), atoi(it.substr(c + 1).c_str()));
+				}
+			}
+		});
 	}
 	if(op == "c10.binom")
 	{
